@@ -45,6 +45,11 @@ Theorem C17_xlat_is_cisco_key : tab_xlat = cisco_key /\ tab_wrap = 53%Z /\ lengt
 Proof. exact (conj xlat_is_cisco_key (conj wrap_is_53 xlat_len)). Qed.
 Print Assumptions C17_xlat_is_cisco_key.
 
+(* every constant of TabC17.v was read from the current source (none had to be replaced by its reference value) *)
+Theorem C17_tables_read_from_source : tab_unread = [].
+Proof. reflexivity. Qed.
+Print Assumptions C17_tables_read_from_source.
+
 (* (d) pwd_check accepts exactly: length <= 127 and no character of invalid_chars (which the source defines as ?, backslash, double quote) *)
 Theorem C17_pwd_check_spec : forall pw,
   pwd_check pw = Ok tt <-> (length pw <= tab_max_len)%nat /\ Forall (fun c => ~ In c tab_invalid_chars) pw.
